@@ -58,6 +58,30 @@ Proof.
 Qed.
 Print Assumptions closure_minimal_and_closed.
 
+(* C10 clause 2, stated on what a reference leads to: the k-th component of
+   every glyph of the subset is a glyph with the outline (in particular: blank
+   iff the original component is blank - a zero-length glyf entry such as
+   "space"), advance width, name and number of components of the k-th
+   component of the original glyph.  A reference re-pointed to any other glyph
+   (glyph 0, say) contradicts this unless that glyph is indistinguishable. *)
+Theorem composite_components_identical : forall orc f gl, wf_fontb f = true -> wf_listb f gl = true ->
+  f_kind f = KGlyf ->
+  exists r, M_subset orc f gl = Ok r /\
+    forall i g x y,
+      nth_error (r_sel r) i = Some g -> nth_error (f_glyphs f) (N.to_nat g) = Some x ->
+      nth_error (f_glyphs (r_font r)) i = Some y ->
+      forall k c, nth_error (g_comps x) k = Some c ->
+        exists c' xc yc, nth_error (g_comps y) k = Some c' /\
+          nth_error (f_glyphs f) (N.to_nat c) = Some xc /\
+          nth_error (f_glyphs (r_font r)) (N.to_nat c') = Some yc /\
+          g_outline yc = g_outline xc /\ g_width yc = g_width xc /\ g_name yc = g_name xc /\
+          length (g_comps yc) = length (g_comps xc) /\ is_blank yc = is_blank xc.
+Proof.
+  intros orc f gl Hwf Hl Hk. destruct (M_subset_facts orc f gl Hwf Hl) as [r [E F]]. exists r.
+  split; [exact E|exact (cl_comp_identity f gl r F Hk)].
+Qed.
+Print Assumptions composite_components_identical.
+
 (* C10 clause 3: every cmap subtable stays a finite map; a character maps to
    new index k iff it mapped to the glyph listed at position k; no other
    character is mapped. *)
